@@ -96,6 +96,24 @@ CLAIMED["C10"] = (
     "Trusts TLC/Json, pallas' decoder and Blake2b, the driver's CBOR reader; script-data hash recomputed independently for V2/V3 language views.",
     "DESIGN.md section 5, C10")
 
+CLAIMED["C12"] = (
+    "TLC sentence enumeration over Grammar.tla (generated from tx3.pest by gen/pest2tla.py) from `program` and from every major non-terminal, hostile-lexeme substitution, seeded token mutations of the examples, nesting to depth 64, run through parse_string + analyze in an isolated child + TLC trace validation of the outcome alphabet (Trace_Frontend)",
+    "TLC enumerates every sentence up to N tokens of the grammar file itself; each is realised with resolvable / unresolvable identifiers and hostile literals, parsed and analysed by the real front end, and TLC validates that every recorded stage outcome is one the Frontend spec has an action for (ok / err); "
+    "a panic, abort or 30 s timeout has none.",
+    "The spec does not predict accept vs reject (that would re-implement pest): its role is the systematic generator and the outcome alphabet. Repetitions bounded to 2; depth and token bounds per non-terminal are in gen/frontend.py.",
+    "DESIGN.md section 5, C12")
+CLAIMED["C13"] = (
+    "TLC-enumerated semantic mutants (MC_Mutants: 47 mutation operators x 12 expression slots, double mutants in the thorough tier) plus whole-program mutants, run through analyze / lower / Workspace::lower + TLC trace validation of the stage contract (Trace_Frontend)",
+    "Every mutant is parsed, analysed, every tx lowered and the facade run; TLC validates Frontend.LowerContract on the recorded events (no analysis error implies every lowering succeeds) and that no stage panics. 26 analyzer gaps are recorded findings, identified by mutation operator and lowering error.",
+    "Trusts TLC/Json and the pretty-printer; mutants the parser rejects only exercise the outcome alphabet.",
+    "DESIGN.md section 5, C13")
+CLAIMED["C19"] = (
+    "the C12 and C13 generators laid out over one / several / many lines with multi-byte characters + TLC trace validation of Frontend.ParseDiagOK / AnalyzeDiagOK on every recorded diagnostic (Trace_Frontend)",
+    "For every generated source that fails to parse or analyse, the driver reports the span facts of each diagnostic (carried text length, start, end, character-boundary flags, located text, name) and whether miette renders it; TLC validates that each lies inside the text it carries and that name-resolution "
+    "diagnostics locate exactly the name they report.",
+    "Trusts TLC/Json; spans are read from the public fields / span() accessors; rendering through miette::Report's Debug output.",
+    "DESIGN.md section 5, C19")
+
 ALL = ["C%02d" % i for i in range(1, 21)]
 
 NOT_YET = "check not built yet in this revision of /verif (planned: see DESIGN.md section 5); not claimed until its machinery exists and is quiet on the unchanged tree"
